@@ -600,6 +600,27 @@ func runCmd(c *Cmd) {
 			e.Srcs = []string{"ref"}
 			emit(e)
 		}
+		// and DecodeBebop under fragmenting readers (the skip of unknown fields must not depend on full reads)
+		for i, pat := range [][]int{{1}, {2}, {3, 1}, {7, 2}} {
+			m := 2 + i
+			begin(c.Cid, m, &Event{Ev: "dec", API: "DecodeBebop", Srcs: []string{"ref"}, Style: "fragmented"})
+			e := &Event{Ev: "dec", Cid: c.Cid, M: m, API: "DecodeBebop", Srcs: []string{"ref"}, Style: "fragmented"}
+			sr := &schedReader{data: append(append([]byte{}, ref...), trailer...), pattern: pat, ends: []int{len(ref)}}
+			rec := newRecord(pi.Pid, c.Root)
+			e.Res, e.Msg, e.Big, e.Alloc = call(len(ref), func() error { return rec.DecodeBebop(sr) })
+			e.Consumed = ip(sr.pos)
+			if e.Res == "nil" {
+				v, err := liftRecord(pi, c.Root, rec)
+				if err != nil {
+					e.Res = "harness-error"
+					e.Msg = err.Error()
+				} else {
+					e.Val = v
+					e.HasVal = true
+				}
+			}
+			emit(e)
+		}
 	case "stream":
 		opStream(pi, c)
 	case "evolve":
